@@ -37,11 +37,11 @@ func c12accept(p *Prog, r *Report) {
 		r.Anchor(rule, "node.(*core).fastForward")
 		return
 	}
-	block, frame := ssa.Value(fn.Params[1]), ssa.Value(fn.Params[2])
+	frame := ssa.Value(fn.Params[2])
 	checkM := named(HG + ".Hashgraph.CheckBlock")
 	qCheck := p.lift(func(l Lit) bool {
 		c, ok := errNilLit(l, checkM)
-		return ok && depOnValue(argN(c, 0), block)
+		return ok && depOnParamType(argN(c, 0), "Block")
 	}, 1)
 	qFrame := p.lift(func(l Lit) bool {
 		x, y, ok := eqLit(l)
@@ -49,9 +49,9 @@ func c12accept(p *Prog, r *Report) {
 			return false
 		}
 		isFH := func(v ssa.Value) bool {
-			return (depOnCall(v, named(HG+".Block.FrameHash")) || depOnField(v, "FrameHash")) && depOnValue(v, block)
+			return (flowsFromCall(v, named(HG+".Block.FrameHash"), 0) || flowsFromField(v, "FrameHash")) && depOnParamType(v, "Block")
 		}
-		isH := func(v ssa.Value) bool { return depOnCall(v, named(HG+".Frame.Hash")) && depOnValue(v, frame) }
+		isH := func(v ssa.Value) bool { return flowsFromCall(v, named(HG+".Frame.Hash"), 0) && depOnParamType(v, "Frame") }
 		return (isFH(x) && isH(y)) || (isFH(y) && isH(x))
 	}, 1)
 	var actions []ssa.Instruction
@@ -103,10 +103,10 @@ func c12accept(p *Prog, r *Report) {
 				return false
 			}
 			isPH := func(v ssa.Value) bool {
-				return (depOnCall(v, named(HG+".Block.PeersHash")) || depOnField(v, "PeersHash")) && depOnValue(v, block)
+				return (flowsFromCall(v, named(HG+".Block.PeersHash"), 0) || flowsFromField(v, "PeersHash")) && depOnParamType(v, "Block")
 			}
 			isSet := func(v ssa.Value) bool {
-				return depOnCall(v, named(PEER+".PeerSet.Hash")) && depOnField(v, "Peers") && depOnValue(v, frame)
+				return flowsFromCall(v, named(PEER+".PeerSet.Hash"), 0) && depOnField(v, "Peers") && depOnParamType(v, "Frame")
 			}
 			return (isPH(x) && isSet(y)) || (isPH(y) && isSet(x))
 		}, 1)
@@ -137,9 +137,9 @@ func c12check(p *Prog, r *Report) {
 			return false
 		}
 		isPH := func(v ssa.Value) bool {
-			return (depOnCall(v, named(HG+".Block.PeersHash")) || depOnField(v, "PeersHash")) && depOnValue(v, block)
+			return (flowsFromCall(v, named(HG+".Block.PeersHash"), 0) || flowsFromField(v, "PeersHash")) && depOnParamType(v, "Block")
 		}
-		isSet := func(v ssa.Value) bool { return depOnCall(v, named(PEER+".PeerSet.Hash")) && depOnValue(v, peerSet) }
+		isSet := func(v ssa.Value) bool { return flowsFromCall(v, named(PEER+".PeerSet.Hash"), 0) && depOnParamType(v, "PeerSet") }
 		return (isPH(x) && isSet(y)) || (isPH(y) && isSet(x))
 	}, 1)
 	var counters []ssa.Value
@@ -148,7 +148,7 @@ func c12check(p *Prog, r *Report) {
 		if !ok || !strict {
 			return false
 		}
-		if !(depOnCall(b, named(PEER+".PeerSet.TrustCount")) && depOnValue(b, peerSet)) {
+		if !(flowsFromCall(b, named(PEER+".PeerSet.TrustCount"), 0) && depOnParamType(b, "PeerSet")) {
 			return false
 		}
 		if depOnCall(a, named(PEER+".PeerSet.TrustCount")) {
@@ -192,7 +192,7 @@ func c12check(p *Prog, r *Report) {
 					return false
 				}
 				fv, base := fieldOf(lk.X)
-				return fv != nil && (fv.Name() == "ByPubKey" || fv.Name() == "ByID") && depOnValue(base, peerSet)
+				return fv != nil && (fv.Name() == "ByPubKey" || fv.Name() == "ByID") && depOnParamType(base, "PeerSet")
 			}, 1)
 			qVerify := p.lift(func(l Lit) bool {
 				return resultLit(l, named(HG+".Block.Verify"), 0, true, block)
@@ -275,7 +275,7 @@ func c12mapCounter(p *Prog, r *Report, fn *ssa.Function, mk *ssa.MakeMap, block,
 					return false
 				}
 				fv, base := fieldOf(lk.X)
-				return fv != nil && (fv.Name() == "ByPubKey" || fv.Name() == "ByID") && depOnValue(base, peerSet)
+				return fv != nil && (fv.Name() == "ByPubKey" || fv.Name() == "ByID") && depOnParamType(base, "PeerSet")
 			}, 1)
 			qVerify := p.lift(func(l Lit) bool { return resultLit(l, named(HG+".Block.Verify"), 0, true, block) }, 1)
 			ok1, _ := p.allPaths(mu, []Pred{qMember}, all(1))
